@@ -19,7 +19,7 @@ TECHNIQUE = (
 )
 LEVEL_TEXT = (
     "All populations of 0..N devices (N=2 quick, 3 thorough) over address in {target, A, B} x programming mode x connection-oriented behaviour in "
-    "{answer, refuse, silent} (up to 2 devices also over the faulty variants T_NAK, wrong T_ACK number, other service, ack only, late answer, wrong-numbered answer), each with bus latencies {same instant, 20 ms staggered, spread over 0.5..2.5 s} and, for answer/refuse/silent populations, answers delivered BEFORE the L_Data.con of the request (all devices, or only the first with the others 50 ms later; confirmation in the same call, one loop turn or 10 ms later); sequences of 2 (thorough 3) procedure calls on the same XKNX (check / write / scan, then devices enter programming mode, then a write of the same or a free address) on all populations of 1..2 devices over 12 kinds; serial-number read/write on all populations of <= N devices "
+    "{answer, refuse, silent} (up to 2 devices also over the faulty variants T_NAK, wrong T_ACK number, other service, ack only, late answer, wrong-numbered answer), each with bus latencies {same instant, 20 ms staggered, spread over 0.5..2.5 s} and, for answer/refuse/silent populations, answers delivered BEFORE the L_Data.con of the request (all devices, or only the first with the others 50 ms later; confirmation in the same call, one loop turn or 10 ms later); populations with a device that carries the interface's own individual address (0.0.0 by default, or an assigned 1.1.250), for the write and the serial procedures; sequences of 2 (thorough 3) procedure calls on the same XKNX (check / write / scan, then devices enter programming mode, then a write of the same or a free address) on all populations of 1..2 devices over 12 kinds; serial-number read/write on all populations of <= N devices "
     "over serial in {wanted, other} x chatty x address; dmp_authorize2_r_co on all 256 level pairs. Bounded exhaustive enumeration, hence fault_enumeration."
 )
 LEVEL_NOTE = (
@@ -48,9 +48,9 @@ SERIAL = bytes.fromhex("00fa12345678")
 OTHER_SERIAL = bytes.fromhex("00fa0000beef")
 
 
-def _run(loop, coro_fn, devices, latency, holder=None):
+def _run(loop, coro_fn, devices, latency, holder=None, own="1.1.1"):
     xknx = XKNX()
-    link = CemiLink(xknx, loop)
+    link = CemiLink(xknx, loop, own_address=own)
     if latency == "spread":
         bus = SimBus(link, devices, latency=0.5, stagger=1.0)
     elif isinstance(latency, str):
@@ -145,13 +145,18 @@ def _judge_write_broadcasts(ctx, case, out, before, writes, prefix=""):
 
 def address_write_case(ctx, case):
     """One population against nm_individual_address_write."""
-    devices = [SimDevice(i, a, bool(p), co, bytes([0, 0xFA, 0, 0, 0, i + 1])) for i, (a, p, co) in enumerate(case["devices"])]
+    own = case.get("own", "1.1.1")  # the interface's own individual address; a device may (wrongly) carry the same one: "OWN"
+    devices = [SimDevice(i, own if a == "OWN" else a, bool(p), co, bytes([0, 0xFA, 0, 0, 0, i + 1])) for i, (a, p, co) in enumerate(case["devices"])]
     before = [d.snapshot() for d in devices]
+    if any(a == "OWN" for a, _p, _co in case["devices"]):
+        ctx.count("populations_with_a_device_at_the_interface_address")
+        if any(a == "OWN" and p for a, p, _co in case["devices"]):
+            ctx.count("programming_mode_device_at_the_interface_address")
     for d in before:
         if d["address"] == TARGET and not d["prog"]:
             ctx.count(f"target_address_held_by_{d['co']}_device")
     loop = new_loop()
-    out = _run(loop, lambda x: procedures.nm_individual_address_write(x, TARGET), devices, case["latency"])
+    out = _run(loop, lambda x: procedures.nm_individual_address_write(x, TARGET), devices, case["latency"], own=own)
     ctx.ev()
     bus = out["bus"]
     if out["harness"]:
@@ -193,7 +198,7 @@ def address_write_case(ctx, case):
                 ctx.count("restart_to_target")
     if out["outcome"] == "returned":
         ctx.count("write_procedure_success")
-    ctx.distinct(("aw", tuple(sorted(case["devices"])), case["latency"], out["outcome"], len(writes)))
+    ctx.distinct(("aw", tuple(sorted(case["devices"])), case["latency"], case.get("own"), out["outcome"], len(writes)))
     return out
 
 
@@ -273,16 +278,19 @@ def sequence_case(ctx, case):
 
 def serial_case(ctx, case):
     """Serial-number read and write on one population."""
-    devices = [SimDevice(i, a, False, "answer", SERIAL if mine else OTHER_SERIAL[:-1] + bytes([i + 1]), chatty=bool(ch))
+    own = case.get("own", "1.1.1")
+    devices = [SimDevice(i, own if a == "OWN" else a, False, "answer", SERIAL if mine else OTHER_SERIAL[:-1] + bytes([i + 1]), chatty=bool(ch))
                for i, (a, mine, ch) in enumerate(case["devices"])]
+    if any(a == "OWN" and mine for a, mine, _ch in case["devices"]):
+        ctx.count("serial_owner_at_the_interface_address")
     owner = [d for d in devices if d.serial == SERIAL]
     for op in ("read", "write"):
         devs = [SimDevice(d.index, str(d.address), False, "answer", d.serial, chatty=d.chatty) for d in devices]
         loop = new_loop()
         if op == "read":
-            out = _run(loop, lambda x: procedures.nm_individual_address_serial_number_read(x, SERIAL), devs, case["latency"])
+            out = _run(loop, lambda x: procedures.nm_individual_address_serial_number_read(x, SERIAL), devs, case["latency"], own=own)
         else:
-            out = _run(loop, lambda x: procedures.nm_individual_address_serial_number_write(x, SERIAL, TARGET), devs, case["latency"])
+            out = _run(loop, lambda x: procedures.nm_individual_address_serial_number_write(x, SERIAL, TARGET), devs, case["latency"], own=own)
         ctx.ev()
         w = lambda **m: _pop_witness(dict(case, op=op), out, **m)  # noqa: E731
         if out["harness"]:
@@ -377,6 +385,7 @@ def run(ctx):
                 "serial_cases_with_foreign_responses", "authorize_pairs", "answers_delivered_before_confirmation",
                 "programming_mode_answers_before_confirmation", "serial_answers_before_confirmation",
                 "procedure_sequences", "later_calls_on_the_same_xknx", "address_writes_by_later_calls",
+                "programming_mode_device_at_the_interface_address", "serial_owner_at_the_interface_address",
                 *(f"target_address_held_by_{co}_device" for co in CO + CO_FAULTY))
     n = 0
     one = list(itertools.product(ADDRS, (0, 1), CO))
@@ -400,6 +409,23 @@ def run(ctx):
                                 "broadcasts": [b["apci"] for b in out["bus"].broadcasts]})
     if ctx.shard == 0:
         ctx.extra["address_write_populations"] = n
+    # a device carrying the interface's own individual address (the default 0.0.0 or an assigned tunnel address)
+    own_kinds = list(itertools.product((TARGET, ADDRS[1], "OWN"), (0, 1), CO))
+    for own in ("0.0.0", "1.1.250"):
+        for k in range(1, 3):
+            for pop in itertools.product(own_kinds, repeat=k):
+                if not any(d[0] == "OWN" for d in pop):
+                    continue
+                n += 1
+                if ctx.mine(n):
+                    address_write_case(ctx, {"devices": [list(d) for d in pop], "latency": 0.02, "own": own})
+        for k in range(1, 3):
+            for pop in itertools.product(list(itertools.product((ADDRS[1], "OWN"), (0, 1), (0, 1))), repeat=k):
+                if sum(1 for d in pop if d[1]) > 1 or not any(d[0] == "OWN" for d in pop):
+                    continue
+                n += 1
+                if ctx.mine(n):
+                    serial_case(ctx, {"devices": [list(d) for d in pop], "latency": 0.02, "own": own})
     # sequences of calls on the same XKNX: first call (check / write of TARGET / scan), then some devices enter programming mode,
     # then a write of TARGET or of a free address
     kinds2 = list(itertools.product(ADDRS[:2], (0, 1), CO))
